@@ -150,6 +150,12 @@ def permute4x64 (a : Reg) (imm : Nat) : Reg := fun k => a (2 * ((imm >>> (2 * (k
 def permutexvar32 (idx a : Reg) : Reg := fun k => a ((idx k).toNat % 16)
 /-- `_mm512_permutexvar_epi64 idx a` (also `_pd`) -/
 def permutexvar64 (idx a : Reg) : Reg := fun k => a (2 * ((lane64 idx (k / 2)).toNat % 8) + k % 2)
+/-- `_mm512_permutex2var_ps/_epi32 (a, idx, b)`: lane i := (bit 4 of idx_i ? b : a)[idx_i mod 16] -/
+def permutex2var32 (a idx b : Reg) : Reg :=
+  fun i => let j := (idx i).toNat; (if (j >>> 4) % 2 = 1 then b else a) (j % 16)
+/-- `_mm512_permutex2var_pd/_epi64 (a, idx, b)`: 64-bit lane m := (bit 3 of idx_m ? b : a)[idx_m mod 8] -/
+def permutex2var64 (a idx b : Reg) : Reg :=
+  fun k => let j := (lane64 idx (k / 2)).toNat; (if (j >>> 3) % 2 = 1 then b else a) (2 * (j % 8) + k % 2)
 /-- `_mm_hadd_ps` per block: (a0+a1, a2+a3, b0+b1, b2+b3) -/
 def hadd_ps (fo : FOps) (a b : Reg) : Reg :=
   fun k => let s := if k % 4 < 2 then a else b; let j := k / 4 * 4 + 2 * (k % 2); fo.add32 (s j) (s (j + 1))
